@@ -192,9 +192,10 @@ static std::string op_name(int op)
     return std::string("cl(") + LN[l] + "," + (m == 1 ? "s1" : m == 2 ? "s2" : "s1+s2") + ")";
   }
   if (op < 12) return std::string("rm(") + LN[op - 10] + ")";
-  return std::string("log(") + LN[op - 12] + ")";
+  if (op < 14) return std::string("log(") + LN[op - 12] + ")";
+  return std::string("clone(") + LN[op - 14] + " from " + LN[1 - (op - 14)] + ")";
 }
-static constexpr int NOPS = 14;
+static constexpr int NOPS = 16;
 
 static void apply(int op)
 {
@@ -252,6 +253,30 @@ static void apply(int op)
     {
       g_m.loggers.erase(l);
       for (int n = 0; n < 2; ++n) model_release(n);
+    }
+  }
+  else if (op >= 14)
+  {
+    // create_or_get_logger(name, source logger): an existing logger of that name is returned as it is; otherwise the new one
+    // gets the SAME sink objects as the source (it becomes one more holder of them); without a source it is a plain look-up
+    int const l = op - 14, src = 1 - l;
+    L* source = F::get_logger(LN[src]);
+    if ((source != nullptr) != (g_m.loggers.count(src) != 0)) fail("get_logger-wrong", what + ": look-up of the source logger disagrees with the model");
+    bool const expect = g_m.loggers.count(l) != 0 || g_m.loggers.count(src) != 0;
+    // (neither the name nor a source exists: the overload has nothing to return - it asserts in debug builds and throws
+    // "Failed to cast logger" in release builds with RTTI; treated as a precondition of this overload, not called)
+    L* lg = expect ? F::create_or_get_logger(LN[l], source) : nullptr;
+    if ((lg != nullptr) != expect)
+      fail("clone-wrong", what + ": " + (lg ? "returned a logger" : "returned nothing") + ", expected " + (expect ? "a logger" : "nothing"));
+    if (lg)
+    {
+      if (!g_m.loggers.count(l)) g_m.loggers[l] = g_m.loggers[src];
+      int have = 0;
+      for (auto const& sp : lg->sinks)
+        for (int n = 0; n < 2; ++n)
+          if (g_m.obj[n] && serial_of(sp) == g_m.obj[n]) have |= 1 << n;
+      if (have != g_m.loggers[l])
+        fail("clone-wrong", what + ": logger has sink set " + std::to_string(have) + ", expected " + std::to_string(g_m.loggers[l]));
     }
   }
   else
